@@ -290,6 +290,9 @@ func (fgen *funcGen) irCallInst(new ir.Instruction, old *ast.CallInst) error {
 		panic(fmt.Errorf("invalid IR instruction for AST instruction; expected *ir.InstCall, got %T", new))
 	}
 	// Function arguments.
+	if err := checkNoVarArgForwarding(old.Args()); err != nil {
+		return errors.WithStack(err)
+	}
 	if oldArgs := old.Args().Args(); len(oldArgs) > 0 {
 		inst.Args = make([]value.Value, len(oldArgs))
 		for i, oldArg := range oldArgs {
